@@ -209,7 +209,7 @@ def _make_os_proxy():
             if s is not None:
                 arg = a[0] if a else ''
                 s.yield_point('%s:%s' % (name, arg))
-                s.fs_exec.append((len(s.trace), s._me(), name))
+                s.fs_exec.append((len(s.trace), s._me(), name, str(arg)))
             return fn(*a, **k)
         w.__name__ = name
         return w
